@@ -118,7 +118,8 @@ Lemma cartesian_loop_spec bels : okl bels -> part bels -> forall aels, okl aels 
     match o with
     | None => forall a, den_els aels a = true /\ den_els bels a = true
     | Some v => okl v /\ (forall a, cnt v a = cnt aels a) /\
-                (forall a, den_els v a = den_els aels a && den_els bels a)
+                (forall a, den_els v a = den_els aels a && den_els bels a) /\
+                (nonF aels -> nonF v)
     end.
 Proof.
   intros Hb Pb. induction aels as [|[p1 s1] rest IH]; intros Ha.
@@ -132,19 +133,21 @@ Proof.
       assert (Hd : forall a, sden p1 a = true -> den_els bels a = sden s2 a).
       { intros a. apply (excl_den bels p1 s2 a); auto. rewrite Pb. lia. }
       destruct o as [v|].
-      * exists (Some ((p1, s) :: v)). split; [reflexivity|]. destruct Ho as (H1 & H2 & H3).
+      * exists (Some ((p1, s) :: v)). split; [reflexivity|]. destruct Ho as (H1 & H2 & H3 & H4).
         repeat split.
         -- apply okl_cons. auto.
         -- intros a. pw a. bgo a.
         -- intros a. pw a. destruct (sden p1 a) eqn:E1; [rewrite Hd in * by reflexivity|]; bgo a.
+        -- intros Hn. inversion Hn as [|? ? Hn1 Hn2]; subst. constructor; [exact Hn1 | apply H4; exact Hn2].
       * exists None. split; [reflexivity|]. intros a. pw a. bgo a.
     + destruct (prod_inner_spec true p1 s1 Hp1 Hs1 bels Hb (part_excl _ Pb)) as (o1 & E1 & H1).
       rewrite E1. cbn [bind]. destruct o1 as [v1|].
       * rewrite Eo. cbn [bind]. destruct H1 as (K1 & K2 & K3 & K4). destruct o as [v2|].
-        -- exists (Some (v1 ++ v2)). split; [reflexivity|]. destruct Ho as (J1 & J2 & J3). repeat split.
+        -- exists (Some (v1 ++ v2)). split; [reflexivity|]. destruct Ho as (J1 & J2 & J3 & J4). repeat split.
            ++ apply okl_app. auto.
            ++ intros a. rewrite cnt_app. pw a. rewrite Pb in K3. bgo a.
            ++ intros a. rewrite den_els_app. pw a. bgo a.
+           ++ intros Hn. inversion Hn as [|? ? Hn1 Hn2]; subst. apply Forall_app. split; [exact K2 | apply J4; exact Hn2].
         -- exists None. split; [reflexivity|]. intros a. pw a. bgo a.
       * exists None. split; [reflexivity|]. intros a. pw a. destruct H1 as (? & ? & ?). bgo a.
 Qed.
